@@ -863,9 +863,7 @@ impl Engine for SweepEngine {
                 if i % self.of != self.shard {
                     continue;
                 }
-                if i % 32 == 0 {
-                    crate::campaign::touch();
-                }
+                crate::campaign::touch();
                 match judge_point(self.prop, dim, x) {
                     None => {
                         skipped += 1;
